@@ -1,6 +1,7 @@
 // SimAlloc: replaceable global operator new. Counts bytes per armed scope and can fail the
 // k-th allocation with std::bad_alloc. Backed by malloc so sanitizers keep full heap checking.
 #include "simrandom.h"
+#include "sched.h"
 #include <cstdlib>
 #include <new>
 
@@ -11,6 +12,11 @@ AllocCtl & alloc_ctl() { return t_alloc; }
 
 static inline void * sim_alloc(std::size_t n, bool nothrow)
 {
+  // thread mode, pristine-process runs only: every allocation made by a simulated task is a schedule point.
+  // This is what lets the scheduler preempt a task in the middle of straight-line code that neither draws a
+  // deviate nor does I/O (a tokeniser loop, a table copy) - e.g. between two calls of a libc function that
+  // keeps hidden static state.
+  if (sim::sched::alloc_point_ok()) sim::sched_point(sim::SP_ALLOC, (sim::i64)n);
   sim::AllocCtl & c = sim::t_alloc;
   if (c.armed) {
     c.bytes += (sim::i64)n;
